@@ -594,7 +594,7 @@ def sh_safe(ctx, include_make_recipe=False, rule_id='SH-SAFE'):
                     fname, sorted(allowed)))
     for fname in ('local_env', 'global_env'):
         ff = F.fn(POSIX + ':' + fname)
-        j = [e for e in F.calls_to(ff, 'jbos', depth=0)
+        j = [e for e in F.calls_to(ff, 'jbos', depth=1)
              if any(has_const(e.arg(i), '=') for i in range(
                  len(e.call.args)))]
         ok = bool(j) and all(
